@@ -302,6 +302,79 @@ theorem mulDekkerScale_prog (hr : IsRN q r) (f : Fmt) (xmb zb oneb cb invb nb : 
     add_comm (xh * yl), rn_id hr fT2, mul_comm yh xl, rn_id hr fC, rn_id hr fT3, mul_comm yl xl, rn_id hr fD,
     show xh * yh - h + xh * yl + xl * yh + xl * yl = x * y - h by rw [fS]; ring, rn_id hr fE]
 
+set_option maxHeartbeats 2000000 in
+theorem evalQ_mulDekkerScaleFix (f : Fmt) (r : ℚ → ℚ) (x y C Xm iN N Lm : ℚ) (xmb zb oneb cb invb nb lb : Nat)
+    (hC : (decode f cb).toRat? = some C) (hXm : (decode f xmb).toRat? = some Xm) (hZ : (decode f zb).toRat? = some 0)
+    (h1 : (decode f oneb).toRat? = some 1) (hi : (decode f invb).toRat? = some iN) (hN : (decode f nb).toRat? = some N)
+    (hL : (decode f lb).toRat? = some Lm) :
+    evalQ f r (mulDekkerScaleFix xmb zb oneb cb invb nb lb) mulDekkerScaleFixOuts [x, y] =
+      (let ay := if y < 0 then -y else y
+       let yn := if ay < 1 then y else r (y * iN)
+       let gy := r (C * yn)
+       let gdy := r (gy - r (gy - yn))
+       let yh := if Xm < ay then (if y < 0 then -Xm else Xm) else (if ay < 1 then gdy else r (N * gdy))
+       let ax := if x < 0 then -x else x
+       let xn := if ax < 1 then x else r (iN * x)
+       let gx := r (C * xn)
+       let gdx := r (gx - r (gx - xn))
+       let xh := if Xm < ax then (if x < 0 then -Xm else Xm) else (if ax < 1 then gdx else r (gdx * N))
+       let pp := r (yh * xh)
+       let h := r (y * x)
+       let yl := r (y - yh)
+       let t1 := r (pp + -h)
+       let t2 := r (r (xh * yl) + t1)
+       let xl := r (x - xh)
+       let t3 := r (t2 + r (yh * xl))
+       some [h, if Lm < (if pp < 0 then -pp else pp) then 0 else r (t3 + r (yl * xl))]) := by
+  simp only [evalQ, evalNodesQ, evalNodeQ, mulDekkerScaleFix, mulDekkerScaleFixOuts, hC, hXm, hZ, h1, hi, hN, hL, List.getElem?_cons_zero,
+    List.getElem?_cons_succ, List.nil_append, List.cons_append, Option.bind_eq_bind, Option.bind_some, List.mapM_cons, List.mapM_nil,
+    ite_q2b, Option.pure_def, Option.bind_some, ite_self]
+
+/-- `mul_dekker(scale=True, fix_overflow=True)`: exact whenever the product of the high halves does not overflow. -/
+theorem mulDekkerScaleFix_prog (hr : IsRN q r) (f : Fmt) (xmb zb oneb cb invb nb lb : Nat) {s t : ℕ} (Xm Lm : ℚ)
+    (hC : (decode f cb).toRat? = some (2 ^ s + 1)) (hXm : (decode f xmb).toRat? = some Xm) (hZ : (decode f zb).toRat? = some 0)
+    (h1 : (decode f oneb).toRat? = some 1) (hi : (decode f invb).toRat? = some (1 / 2 ^ t)) (hN : (decode f nb).toRat? = some (2 ^ t))
+    (hL : (decode f lb).toRat? = some Lm)
+    (h2s : q.p ≤ 2 * s) (h2s2 : 2 * s ≤ q.p + 2) (hs2 : s + 2 ≤ q.p)
+    {kx ky ex ey : ℤ} (hkx1 : 2 ^ (q.p - 1) ≤ |kx|) (hkx2 : |kx| < 2 ^ q.p) (hky1 : 2 ^ (q.p - 1) ≤ |ky|) (hky2 : |ky| < 2 ^ q.p)
+    (hex : q.emin ≤ ex - t) (hey : q.emin ≤ ey - t) (he : q.emin ≤ ex + ey)
+    (x y : ℚ) (hx : x = (kx : ℚ) * 2 ^ ex) (hy : y = (ky : ℚ) * 2 ^ ey) (hxm : |x| ≤ Xm) (hym : |y| ≤ Xm)
+    (hno : |r ((scaledSplitQ r (2 ^ s + 1) Xm (1 / 2 ^ t) (2 ^ t) y).1 * (scaledSplitQ r (2 ^ s + 1) Xm (1 / 2 ^ t) (2 ^ t) x).1)| ≤ Lm) :
+    evalQ f r (mulDekkerScaleFix xmb zb oneb cb invb nb lb) mulDekkerScaleFixOuts [x, y] = some [r (x * y), x * y - r (x * y)] := by
+  rw [evalQ_mulDekkerScaleFix f r _ _ _ Xm _ _ Lm xmb zb oneb cb invb nb lb hC hXm hZ h1 hi hN hL]
+  have hs1 : 1 ≤ s := by omega
+  have hsp : s < q.p := by omega
+  have habs : ∀ z : ℚ, (if z < 0 then -z else z) = |z| := by
+    intro z; split
+    · rw [abs_of_neg ‹_›]
+    · rw [abs_of_nonneg (not_lt.mp ‹_›)]
+  have A := veltkamp_scaled hr Xm hs1 hsp hkx1 hkx2 hex (by rw [← hx]; exact hxm)
+  have B := veltkamp_scaled hr Xm hs1 hsp hky1 hky2 hey (by rw [← hy]; exact hym)
+  simp only [scaledSplitQ, ← hx, ← hy] at A B hno
+  obtain ⟨a1, a2, a3, a4, a5⟩ := A
+  obtain ⟨b1, b2, b3, b4, b5⟩ := B
+  simp only [habs, mul_comm y (1 / 2 ^ t), mul_comm ((2 : ℚ) ^ t) _]
+  rw [mul_comm y x]
+  generalize (if Xm < |x| then if x < 0 then -Xm else Xm else if |x| < 1 then
+      r (r ((2 ^ s + 1) * if |x| < 1 then x else r (1 / 2 ^ t * x)) - r (r ((2 ^ s + 1) * if |x| < 1 then x else r (1 / 2 ^ t * x)) - if |x| < 1 then x else r (1 / 2 ^ t * x)))
+      else r (r (r ((2 ^ s + 1) * if |x| < 1 then x else r (1 / 2 ^ t * x)) - r (r ((2 ^ s + 1) * if |x| < 1 then x else r (1 / 2 ^ t * x)) - if |x| < 1 then x else r (1 / 2 ^ t * x))) * 2 ^ t)) = xh at *
+  generalize (if Xm < |y| then if y < 0 then -Xm else Xm else if |y| < 1 then
+      r (r ((2 ^ s + 1) * if |y| < 1 then y else r (1 / 2 ^ t * y)) - r (r ((2 ^ s + 1) * if |y| < 1 then y else r (1 / 2 ^ t * y)) - if |y| < 1 then y else r (1 / 2 ^ t * y)))
+      else r (r (r ((2 ^ s + 1) * if |y| < 1 then y else r (1 / 2 ^ t * y)) - r (r ((2 ^ s + 1) * if |y| < 1 then y else r (1 / 2 ^ t * y)) - if |y| < 1 then y else r (1 / 2 ^ t * y))) * 2 ^ t)) = yh at *
+  generalize r (x - xh) = xl at *
+  generalize r (y - yh) = yl at *
+  have a1' : xh + xl = (kx : ℚ) * 2 ^ ex := by rw [← hx]; exact a1
+  have b1' : yh + yl = (ky : ℚ) * 2 ^ ey := by rw [← hy]; exact b1
+  obtain ⟨fA, fB, fC, fD, fT1, fT2, -, fT3, fE, fS⟩ :=
+    dekker_core hr h2s h2s2 hs2 hkx1 hkx2 hky1 hky2 he a1' a2 a3 a4 a5 b1' b2 b3 b4 b5
+  simp only [← hx, ← hy] at fA fB fC fD fT1 fT2 fT3 fE fS
+  generalize r (x * y) = h at *
+  have hcond : ¬ (Lm < |r (yh * xh)|) := not_lt.mpr hno
+  simp only [hcond, if_false]
+  rw [mul_comm yh xh, rn_id hr fA, ← sub_eq_add_neg, rn_id hr fT1, rn_id hr fB,
+    add_comm (xh * yl), rn_id hr fT2, mul_comm yh xl, rn_id hr fC, rn_id hr fT3, mul_comm yl xl, rn_id hr fD,
+    show xh * yh - h + xh * yl + xl * yh + xl * yl = x * y - h by rw [fS]; ring, rn_id hr fE]
+
 theorem evalQ_mulDekker (f : Fmt) (r : ℚ → ℚ) (x y C : ℚ) (cb : Nat) (hC : (decode f cb).toRat? = some C) :
     evalQ f r (mulDekker cb) mulDekkerOuts [x, y] =
       (let xh := r (r (C * x) - r (r (C * x) - x))
